@@ -178,18 +178,21 @@ pub fn oracle_kf(c: &HistoryCase, obs: &mut Obs, kf: Kf) -> Verdict {
         return Verdict::Pass;
     }
     // KF3 signature: a tag sits on a wrapper line of an unwrap-block, or a wrapper line is blank
+    // Documents with the signature of KF3 / KF8 are not dropped: the composition relation is replaced by what still
+    // holds for them on the unchanged tree (no panic, exact idempotence of every step)
+    let mut relaxed = false;
     if kf3 {
         let mut strict = opts().domain();
         strict.tags_on_wrappers = false;
         strict.blank_wrappers = false;
         if let Err(why) = astgen::in_domain(&r, &strict) {
-            obs.excluded(&format!("KF3:{why}"));
-            return Verdict::Pass;
+            obs.excluded(&format!("KF3:{why}(composition not asserted)"));
+            relaxed = true;
         }
     }
     if kf.kf8 && kf8_signature(&r) {
-        obs.excluded("KF8:foreign-tag-on-unwrap-tag-line");
-        return Verdict::Pass;
+        obs.excluded("KF8:foreign-tag-on-unwrap-tag-line(composition not asserted)");
+        relaxed = true;
     }
     // (elements whose reference extent is undefined count as kept in this mask: the predicate stays a function of the input)
     if kf.kf9 && c.chain.iter().any(|a| kf9_signature(&r, &astgen::truth(&r, a), &c.spell)) {
@@ -238,6 +241,14 @@ pub fn oracle_kf(c: &HistoryCase, obs: &mut Obs, kf: Kf) -> Verdict {
             Ok(o) => o,
             Err(p) => vfail!("step {i}: clean of the original panicked: {p}\n  src = {:?}", r.src),
         };
+        if relaxed {
+            // (nothing about the text can be asserted here: once a pending element has lost one of its tags to an
+            // unwrap part, same-name tags pair up differently and later runs delete text far outside the element)
+            obs.class("KF3/KF8-layout(no panic, idempotence)");
+            prev_ready = tr.n_ready;
+            cur = next;
+            continue;
+        }
         if nows(&next) != nows(&direct) {
             vfail!("step {i} (time index {}, targets {:?}) of the chain {:?}: step-by-step cleaning and cleaning once differ beyond whitespace\n  original     = {:?}\n  step by step = {:?}\n  at once      = {:?}", acfg.now_idx, cfg.targets, c.chain.iter().map(|a| (a.now_idx, a.targets)).collect::<Vec<_>>(), truncate(&r.src, 900), truncate(&next, 900), truncate(&direct, 900));
         }
